@@ -128,7 +128,7 @@ pub fn stored_rules(e: &Engine) -> BTreeMap<String, u32> {
 
 pub fn run(ctx: &mut Ctx) {
     let sub = "roundtrip";
-    let cases = ctx.n(60_000, 1_000_000);
+    let cases = ctx.n(60_000, 4_000_000);
     for idx in 0..cases {
         if ctx.stop() {
             break;
